@@ -18,7 +18,7 @@ LIFE_T = [(p, n * 12) for p, n in LIFE_Q] + [("download", 1500), ("network", 150
 PROPS = {
     "C14": {
         "modules": ["C14"],
-        "required_theorems": ["C14_holds", "init_configured"],
+        "required_theorems": ["C14_holds", "second_init_keeps_booting"],
         "monitors": ["C14"],
         "fields": ["ret", "net", "sj", "sje", "pj", "pd", "junk"],
         "campaign": camp([("init", 400), ("chaos", 300), ("mixed", 200), ("lifecycle", 100)],
